@@ -18,6 +18,7 @@ VERIF_KINDS = [
     ("decreases not satisfied", "decreases"),
     ("loop invariant", "invariant"),
     ("possible truncation", "overflow"),
+    ("precondition not met", "precondition"),     # e.g. `index in bounds for this access` on slices
     ("recommendation not met", "recommends"),
     ("cannot prove termination", "decreases"),
     ("unable to prove assertion safety", "assert"),
